@@ -47,6 +47,7 @@ ASSUMPTIONS = [
 ]
 TECHNIQUE = "statement CFG must-pass-through + call-graph effect/raise summaries + exhaustive abstract interpretation of the convergence verdict + table-agreement checks"
 EXPLANATION += (' ' + "(R5.8, shared with C06 R6.9 / C12 R12.7) on every path init_results_element rebinds net['res_<element>'] to a new all-NaN frame with the element's index, so a failed run cannot leave earlier numbers behind. (R5.9, the analysis of C14 R14.1 / R14.2, obligations keep their R14 labels) resolving the options writes into none of the stored layers, so the iteration budget in force is what the layers say at the time of the call.")
+EXPLANATION += (' ' + '(R5.2, extended) every init_results method reaches init_results_element (or super().init_results) under no condition, so no component keeps the result rows of an earlier run, e.g. after all its elements were removed.')
 
 
 # ---------------------------------------------------------------------------------------------
